@@ -1020,7 +1020,7 @@ func (it *Interp) makeSlice(fr *frame, st *AState, x *ssa.MakeSlice) *AVal {
 func (it *Interp) doCall(fr *frame, st *AState, c *ssa.Call) []result {
 	var args []*AVal
 	for i := 0; i < NArgs(c); i++ {
-		args = append(args, it.get(fr, st, Arg(c, i)))
+		args = append(args, it.get(fr, st, ArgRaw(c, i)))
 	}
 	if b, ok := c.Call.Value.(*ssa.Builtin); ok {
 		return []result{{ret: []*AVal{it.builtin(st, c, b.Name(), args)}, st: st}}
